@@ -163,10 +163,10 @@ def consistency_case(case, fail):
         fail('estimator_counts', f'get_results n_fail={g["n_fail"]} n_runs={g["n_runs"]}; lists give {nf}/{total}')
     if total > 0:
         pe = nf / total
-        if abs(float(g['p_est']) - pe) > 1e-12:
+        if not abs(float(g['p_est']) - pe) <= 1e-12:
             fail('estimator_p_est', f'{g["p_est"]} != {pe}')
         se = np.sqrt(pe * (1 - pe) / (total + 1))
-        if abs(float(g['p_se']) - se) > 1e-12:
+        if not abs(float(g['p_se']) - se) <= 1e-12:
             fail('estimator_p_se', f'{g["p_se"]} != {se}')
         for i in range(total):
             cs_i = bool(resA['codespace'][i])
@@ -236,7 +236,7 @@ def calibration_case(case, fail):
     g = sim.get_results()
     nf = int(g['n_fail'])
     tol = 6 * np.sqrt(N * p_fail * (1 - p_fail)) + 1
-    if abs(nf - N * p_fail) > tol:
+    if not abs(nf - N * p_fail) <= tol:
         fail('calibrated', f'{nf} failures in {N} trials, exact failure probability '
              f'{p_fail:.6f} predicts {N * p_fail:.1f} +- {tol:.1f}')
     # syndrome visit frequencies
